@@ -38,6 +38,11 @@
 (*   cls=ladder   one predict call on N rows, N around 64 .. 1024 and larger *)
 (*                (internal block sizes), alternately through the inherent  *)
 (*                methods and the api traits (entry)                        *)
+(*   farexp       present on the outlier families (cls=outlier-first/-last/  *)
+(*                -dup): one isolated row 2^farexp away in column 1, which   *)
+(*                is recorded in units of 2^farexp (X 0/1, centroids scaled  *)
+(*                exactly); Finite / Labels / Sizes / Means decided exactly, *)
+(*                predict not decided                                        *)
 (*   cls=geo      geometric coordinates (very deep BBD tree), see           *)
 (*                KMeansProps: FitGeoClause; event BbdGeo for the filtering *)
 (*                step on such data                                         *)
@@ -93,7 +98,7 @@ VARIABLES l, nbad, hits, nt, drift, empties
 vars == <<l, nbad, hits, nt, drift, empties>>
 
 HitNames == {"KMFit", "FitLattice", "FitCont", "FitF32", "Means", "PredictFx", "PredictExact", "PredictTie",
-             "EmptyCluster", "Unconstrained", "FitNotOk", "FitModel", "FitOffset", "FitOffsetExact", "BbdOffset", "ProbeEmpty", "FitSwap", "FitComp", "PredictBackend", "FitGeo", "BbdGeo", "PredictLadder", "TraitEntry",
+             "EmptyCluster", "Unconstrained", "FitNotOk", "FitModel", "FitOffset", "FitOffsetExact", "BbdOffset", "ProbeEmpty", "FitSwap", "FitComp", "PredictBackend", "FitGeo", "BbdGeo", "PredictLadder", "TraitEntry", "FitOutlier", "FitOutlierF32",
              "Bbd", "BbdTie", "BbdCoincident", "BbdEmpty", "BbdRational", "BbdModel", "Drift"}
 
 AllPositive(v) == \A c \in 1..Len(v) : v[c] > 0
@@ -105,8 +110,11 @@ TieSeen(T, cd2, ans) ==
         o # ans[i] + 1 /\ RatLeq(T[i][o], cd2[o], T[i][ans[i] + 1], cd2[ans[i] + 1])
 
 (* ------------------------------------------------------------------ KMFit *)
+IsOutlierFamily(e) == "farexp" \in DOMAIN e
+
 ExactApplies(e) ==
     /\ e.exact
+    /\ ~IsOutlierFamily(e)
     /\ e.n <= (IF e.offmax = 0 THEN ExactMaxN ELSE ExactMaxNOffset)
     /\ (e.offmax # 0 => e.d <= 3)
     /\ AllPositive(e.size)
@@ -118,6 +126,11 @@ FitClause2(e, sums) ==
     ELSE IF ~ShapeOK(e.cfx, e.k, e.d) THEN "Shape"
     ELSE IF ~MeansFx(sums, e.size, e.cfx, e.xs, e.k, e.d) THEN "Means"
     ELSE IF e.pstatus # "ok" THEN "PredictStatus"
+    \* outlier families: column 1 is recorded in units of 2^farexp, which does not preserve
+    \* distances -- the predict clauses are not decided there, only the range of the labels
+    ELSE IF IsOutlierFamily(e)
+         THEN (IF Len(e.pred) = Len(e.Q8) /\ \A i \in 1..Len(e.pred) : e.pred[i] \in 0..(e.k - 1)
+               THEN "" ELSE "PredictRange")
     ELSE IF ~PredictFx(e.Q8, e.pred, e.c8) THEN "PredictFx"
     ELSE IF ExactApplies(e) /\ ~PredictExact(e.Q, e.pred, sums, e.size)
          THEN "PredictExact"
@@ -183,6 +196,8 @@ FitTags(e) ==
          \cup (IF Len(e.alt) > 0 THEN {"PredictBackend"} ELSE {})
          \cup (IF e.cls = "ladder" /\ Len(e.pred) > 512 THEN {"PredictLadder"} ELSE {})
          \cup (IF e.cls = "ladder" /\ "entry" \in DOMAIN e /\ e.entry = "trait" THEN {"TraitEntry"} ELSE {})
+         \cup (IF IsOutlierFamily(e) THEN {"FitOutlier"} ELSE {})
+         \cup (IF IsOutlierFamily(e) /\ e.prec = 32 THEN {"FitOutlierF32"} ELSE {})
          \cup (IF e.cls = "swap" THEN {"FitSwap"} ELSE {})
          \cup (IF e.cls = "comp" THEN {"FitComp"} ELSE {})
          \cup (IF e.offmax # 0 THEN {"FitOffset"} ELSE {})
